@@ -145,6 +145,15 @@ def main():
         for d in demos:
             shutil.copy(os.path.join(sd, d), os.path.join(dst, d))
         meta = dict(meta_in)
+        # keep the outcome of earlier runs (a seed that escaped, then was caught after the
+        # check was strengthened, shows both)
+        old = os.path.join(dst, "meta.json")
+        if os.path.exists(old):
+            try:
+                om = json.load(open(old))
+                meta["earlier_outcomes"] = om.get("earlier_outcomes", []) + [om.get("checks")]
+            except Exception:
+                pass
         meta["confirmed"] = {k: res.get(k) for k in ("demo_clean_pass", "builds", "demo_patched_fails", "existing_tests_pass")}
         meta["what_we_ran"] = res["ran"]
         meta["checks"] = res["checks"]
